@@ -91,4 +91,4 @@ def families(tier):
 
 
 def knobs(tier):
-    return {"cap": 44 if tier == "quick" else 400}
+    return {"cap": 44 if tier == "quick" else 220}
